@@ -46,6 +46,12 @@ def texts_for(entry, kind):
     except UnicodeError:
         pass
 
+    if kind == 'dos':
+        # a first line ending exactly at an 8 KiB boundary, followed by a
+        # line that starts with a space
+        unit = len(entry['lf'])
+        extra.append('L' * (8192 // unit - 1) + nl + ' lead' + nl + 'end')
+
     return extra + [
         'a' + nl + 'b',
         'first line' + nl + rich + nl + '  indented ' + exotic + nl,
